@@ -56,6 +56,9 @@ type Contract struct {
 	Uses     []*UseSpec
 	Asserts  []*UseSpec
 	Inline   bool
+	Iface    bool   // contract of an interface method: assumed for arbitrary implementations
+	Impl     string // "Type.Method": this function (or closure) must satisfy that interface contract
+	Lets     []*UseSpec
 	Trusted  bool // contract assumed, body not verified (listed in evidence)
 	Pure     bool
 	File     string
@@ -97,7 +100,16 @@ type LangDirective struct {
 	Text string
 }
 
+type PoolDirective struct {
+	Var  string
+	Type string
+	Inv  ast.Expr
+	Text string
+	Pkg  string
+}
+
 type ContractSet struct {
+	Pools     map[string]*PoolDirective
 	LangDirs  []*LangDirective
 	Contracts map[string]*Contract
 	Specs     map[string]*SpecFn
@@ -105,13 +117,15 @@ type ContractSet struct {
 	Errors    []string
 }
 
-var funcHdr = regexp.MustCompile(`^func\s+(?:\(\s*\*?\s*([A-Za-z_][A-Za-z0-9_]*)\s*\)\s*)?([A-Za-z_][A-Za-z0-9_]*)\s*(?:\[([^\]]*)\])?\s*$`)
+var funcHdr = regexp.MustCompile(`^func\s+(?:\(\s*\*?\s*([A-Za-z_][A-Za-z0-9_]*)\s*\)\s*)?([A-Za-z_][A-Za-z0-9_$]*)\s*(?:\[([^\]]*)\])?\s*$`)
 var specHdr = regexp.MustCompile(`^spec\s+([A-Za-z_][A-Za-z0-9_]*)\s*\(([^)]*)\)\s*=\s*(.*)$`)
 var lemmaHdr = regexp.MustCompile(`^lemma\s+([A-Za-z_][A-Za-z0-9_]*)\s*\(([^)]*)\)\s*(?:\[([^\]]*)\])?\s*:\s*(.*)$`)
 
 var langHdr = regexp.MustCompile(`^lang\s+([A-Za-z_][A-Za-z0-9_]*)\s*=\s*([a-z]+)\((.*)\)\s*$`)
 
-var clauseKeywords = []string{"func", "spec", "lemma", "lang", "requires", "ensures", "modifies", "loop", "use", "assert", "inline", "trusted", "pure"}
+var poolHdr = regexp.MustCompile(`^pool\s+([A-Za-z_][A-Za-z0-9_]*)\s+(\S+)\s*:\s*(.*)$`)
+
+var clauseKeywords = []string{"func", "spec", "lemma", "lang", "pool", "interface", "implements", "let", "requires", "ensures", "modifies", "loop", "use", "assert", "inline", "trusted", "pure"}
 
 func startsKeyword(s string) string {
 	for _, k := range clauseKeywords {
@@ -379,6 +393,19 @@ func (cs *ContractSet) parse(src, file, pkgPath string) {
 			}
 			cs.Specs[sf.Name] = sf
 			cur = nil
+		case "pool":
+			m := poolHdr.FindStringSubmatch(rc.text)
+			if m == nil {
+				cs.errf(file, rc.line, "bad pool directive %q", rc.text)
+				continue
+			}
+			e, err := parseSpecExpr(m[3])
+			if err != nil {
+				cs.errf(file, rc.line, "%v", err)
+				continue
+			}
+			cs.Pools[pkgPath+"."+m[1]] = &PoolDirective{Var: m[1], Type: m[2], Inv: e, Text: m[3], Pkg: pkgPath}
+			cur = nil
 		case "lang":
 			m := langHdr.FindStringSubmatch(rc.text)
 			if m == nil {
@@ -503,6 +530,24 @@ func (cs *ContractSet) parse(src, file, pkgPath string) {
 				} else {
 					cur.Asserts = append(cur.Asserts, u)
 				}
+			case "interface":
+				cur.Iface = true
+			case "implements":
+				cur.Impl = rest
+			case "let":
+				// let NAME = expr @ where
+				k := strings.LastIndex(rest, "@")
+				eq := strings.Index(rest, "=")
+				if k < 0 || eq < 0 || eq > k {
+					cs.errf(file, rc.line, "bad let clause %q", rc.text)
+					continue
+				}
+				e, err := parseSpecExpr(strings.TrimSpace(rest[eq+1 : k]))
+				if err != nil {
+					cs.errf(file, rc.line, "%v", err)
+					continue
+				}
+				cur.Lets = append(cur.Lets, &UseSpec{Where: strings.TrimSpace(rest[k+1:]), Expr: e, Text: strings.TrimSpace(rest[:eq])})
 			case "inline":
 				cur.Inline = true
 			case "trusted":
@@ -515,5 +560,5 @@ func (cs *ContractSet) parse(src, file, pkgPath string) {
 }
 
 func NewContractSet() *ContractSet {
-	return &ContractSet{Contracts: map[string]*Contract{}, Specs: map[string]*SpecFn{}, Lemmas: map[string]*Lemma{}}
+	return &ContractSet{Pools: map[string]*PoolDirective{}, Contracts: map[string]*Contract{}, Specs: map[string]*SpecFn{}, Lemmas: map[string]*Lemma{}}
 }
